@@ -482,6 +482,8 @@ func parseCase(s string) (*kase, bool) {
 	if len(t.t) > 0 && t.t[0] == "free" {
 		k.free = true
 		t.i = 1
+	} else if len(t.t) > 0 && t.t[0] == "strict" {
+		t.i = 1 // judged under "live until released" by the driver; executed like any gated case
 	}
 	t.want("st")
 	k.store = t.next()
@@ -674,6 +676,7 @@ type env struct {
 	bottom   storage.Storage // where markers must live (behind the fault injector)
 	inner    storage.Storage // the same store without the fault injector (set-up and final view)
 	flt      *faultCtl
+	hy1      storage.Storage
 	d        *dbl
 	perInst  map[int]storage.Storage
 	gens64   map[[2]int]*idgen.StorageIDGenerator[int64]
@@ -687,6 +690,14 @@ func (e *env) instStore(inst int) storage.Storage {
 	}
 	var s storage.Storage
 	switch e.k.store {
+	case "hy1":
+		// the default single-node configuration: hybrid storage without a shared cache; every
+		// "instance" is a component of the same node and uses the same storage object
+		if e.hy1 == nil {
+			e.hy1 = wrap(storage.NewHybridStorage(e.ctx, e.bottom.(storage.CacheStorage), nil, nil), e.g)
+		}
+		e.perInst[inst] = e.hy1
+		return e.hy1
 	case "hyb", "hyr":
 		local := storage.NewMemoryStorage(e.ctx)
 		s = storage.NewHybridStorageWithSharedCache(e.ctx, local.(storage.CacheStorage), e.bottom.(storage.CacheStorage), nil, nil)
@@ -709,7 +720,7 @@ func (e *env) setup() error {
 		} else {
 			e.bottom = e.d
 		}
-	case "mem", "hyb":
+	case "mem", "hyb", "hy1":
 		e.bottom = storage.NewMemoryStorage(e.ctx)
 	case "red", "hyr":
 		e.bottom = redisStore(e.ctx)
@@ -814,6 +825,23 @@ func (e *env) release(th *thread, kind int, idstr string, id uint64) error {
 	inst := th.inst
 	st := e.instStore(inst)
 	ttl := time.Duration(e.k.ttl) * time.Millisecond
+	if m := e.managers[inst]; m != nil && e.k.ttl == idgen.DefaultIDTTL.Milliseconds() {
+		// the production path: IDManager.Release*ID
+		switch kind {
+		case 0:
+			v, err := strconv.ParseInt(idstr, 10, 64)
+			if err != nil {
+				return err
+			}
+			return m.ReleaseClientID(v)
+		case 1:
+			return m.ReleaseNodeID(idstr)
+		case 2:
+			return m.ReleasePortMappingID(idstr)
+		default:
+			return m.ReleaseUserID(idstr)
+		}
+	}
 	if kind == 0 {
 		v, err := strconv.ParseInt(idstr, 10, 64)
 		if err != nil {
@@ -848,6 +876,7 @@ func (e *env) runThread(th *thread, barrier func()) {
 	var firstCtx context.Context
 	var firstCancel, hbCancel context.CancelFunc
 	hbLabel, hbSerial := "", 0
+	relLabel, relID := "", ""
 	if len(th.ops) > 0 && th.ops[0].code == 'g' && th.ops[0].kind == nodeKind {
 		// everything except the allocation itself happens before the barrier
 		alloc = node.NewNodeIDAllocator(e.instStore(th.inst))
@@ -934,6 +963,12 @@ func (e *env) runThread(th *thread, barrier func()) {
 					}
 					continue
 				}
+				if o.code == 'w' && relLabel != "" && !g.free && hbAlive(relLabel) {
+					// the ticker of a heartbeat that survived its allocator's Release fires: it would
+					// re-create the marker of the released id
+					g.ev(fmt.Sprintf("rnw.%d.%d.%s", th.tid, nodeKind, relID))
+					continue
+				}
 				g.ev(fmt.Sprintf("nop.%d", th.tid))
 				continue
 			}
@@ -955,10 +990,8 @@ func (e *env) runThread(th *thread, barrier func()) {
 			} else {
 				if ownKind == nodeKind {
 					err = alloc.Release()
-					if hbCancel != nil {
-						hbCancel() // the node stops
-						hbCancel = nil
-					}
+					// the caller's ctx stays live: it is Release itself (stopCh) that must stop the heartbeat
+					relLabel, relID = hbLabel, own
 					if err == nil {
 						released = alloc // kept for late second releases
 					} else {
@@ -1160,6 +1193,7 @@ func execCase(cs string) (obs string) {
 	g.cond.Broadcast()
 	g.mu.Unlock()
 	var view []string
+	var obsMgr *idgen.IDManager
 	for _, u := range e.universe() {
 		ex, err := e.inner.Exists(storeKey(int(u[0]), u[1]))
 		if err != nil {
@@ -1167,6 +1201,29 @@ func execCase(cs string) (obs string) {
 		}
 		if ex {
 			view = append(view, fmt.Sprintf("%d.%s", u[0], idString(int(u[0]), u[1])))
+		}
+		// second path to the same record: a fresh observer node's IDManager must see the same
+		// markers through Is*IDUsed
+		if kind := int(u[0]); kind != nodeKind {
+			if obsMgr == nil {
+				obsMgr = idgen.NewIDManager(e.instStore(1<<20), e.ctx)
+			}
+			var used bool
+			var uerr error
+			ids := idString(kind, u[1])
+			switch kind {
+			case 0:
+				used, uerr = obsMgr.IsClientIDUsed(int64(u[1]))
+			case 1:
+				used, uerr = obsMgr.IsNodeIDUsed(ids)
+			case 2:
+				used, uerr = obsMgr.IsPortMappingIDUsed(ids)
+			default:
+				used, uerr = obsMgr.IsUserIDUsed(ids)
+			}
+			if uerr != nil || used != ex {
+				view = append(view, fmt.Sprintf("isused-mismatch:%d.%s", kind, ids))
+			}
 		}
 	}
 	return strings.Join(append(append(evs, "|"), view...), " ")
